@@ -50,7 +50,10 @@ CLAIMS = {
     'C05': ('proof',
             'PARTIAL. Theorem C05 (coq/props/C05.v) proves the part that is logic: the chi2 of an edge along a boxplus perturbation is differentiable '
             'with derivative built from the error and the CODE Jacobian (generic quad_derive_curve + C01; instances: SE(3) and SE(2) odometry and landmark edges, '
-            'both vertices), a state is first-order '
+            'both vertices); for WHOLE SE(3) graphs of odometry and landmark edges over one pose per vertex (proofs/C05_grad.v) chi2 of the graph is '
+            'differentiable along pose_k [+] t e_i for every free vertex k and tangent coordinate i, and its derivative at 0 is exactly twice the entry of the '
+            'gradient vector of the normal equations built from the records of the regenerated programs (C05_gradient_SE3: the vector graph.py assembles, by C03, '
+            'is half the gradient of chi2 on the manifold; premises met by a concrete 3-vertex graph); a state is first-order '
             'stationary iff the assembled gradient vanishes, the Gauss-Newton increment is a descent direction (b.dx = -dx^T H dx), a consistent '
             'configuration has chi2 = 0 and zero gradient, the stopping rule never reports convergence on an increase; and it REFUTES that the stopping '
             'rule alone implies final chi2 <= initial chi2. NOT proved (and not provable with what is installed): the quantitative local-convergence claim '
@@ -75,7 +78,12 @@ CLAIMS = {
             'unchanged (basis_change_inv, via the C04 gradient-shift lemma); two abstract trajectory theorems (solver = function of an invariant '
             'linearisation; solver = any map returning a solution of a uniquely solvable system, with transformed increments); the glue between edge level '
             'and graph level is proved entry by entry for the landmark slots (J\'[a][j] = sum_m J[a][m] M[m][j] with M the rotation matrix of T^-1, i.e. the body '
-            'of tb_mat). Not formalised: packing the list-matrices of a whole graph into GraphModel records; solution uniqueness is a hypothesis; the '
+            'of tb_mat); the two levels are joined for WHOLE graphs (proofs/C07_ext.v, C07_inst.v, C07_whole.v, C07_wholeRn.v): the normal equations read only '
+            'entries inside the matrix bounds, the GraphModel records built from what the regenerated SE(3)/SE(2) odometry and landmark programs return at '
+            'the transformed poses are entry-wise the re-based records, so for every such graph, every fixed set, every T and every solution d of the normal '
+            'equations P d solves those of the transformed graph (C07_graph_SE3_descr, C07_graph_SE2_descr; premises met by a concrete 3-vertex graph); R^n graphs '
+            'under a translation have literally equal records (C07_graph_Rn). Not formalised: that one vertex carries one pose in all its edges (not needed '
+            'edge-wise), custom edges; solution uniqueness is a hypothesis of the trajectory theorem; the '
             'metamorphic oracle (transforms up to 1e7, iteration counts compared) and the reduced optimizer-loop correspondence cover the composition.',
             AX + TR + 'Over exact reals; floating-point agreement of trajectories is tested by the oracle with magnitude-aware tolerances.',
             'Coq proof over regenerated model (ring identities, uniqueness of derivative, induction over iterations) + metamorphic oracle'),
